@@ -290,7 +290,9 @@ C15_UNITS = [
     dict(name="reuse_spec_f14",
          tlc=[("spec/l1/MCReuse.tla", "spec/l1/MCReuse_select_cancel_F14.cfg"), ("spec/l1/MCReuse.tla", "spec/l1/MCReuse_select_cancel.cfg")],
          tlc_expect_error="StartsClean is violated"),
-] + [ruunit(k) for k in ("normal", "panic", "park_cancel", "sleep_cancel", "tpark_timeout", "select_cancel")] + [
+] + [ruunit(k) for k in ("normal", "panic", "park_cancel", "sleep_cancel", "tpark_timeout", "select_cancel",
+                       # a destructor that yields, run by the Cancel panic (C15-3); the user-panic variant is a C13 unit (F25)
+                       "sleep_dropyield_cancel")] + [
     dict(ruunit("tpark_timeout"), name="reuse_handle_timeout", params=dict(kind="handle_timeout", pool_capacity=1, workers=8)),
     clsunit("cls4", [ca("a1"), ca("a2", end="panic"), ca("a3"), ca("t1", co=False, rounds=1)], ["a3"], pool_capacity=1),
     clsunit("cls_many", [ca("a1", rounds=3), ca("a2", rounds=3), ca("a3", rounds=1), ca("a4", rounds=1, end="panic"), ca("t1", co=False, rounds=2)], ["a1"]),
@@ -321,6 +323,14 @@ C13_UNITS = [
     mpunit("mutex_panic_cancel_pending", [co("a1", ["plock"]), co("a2", ["lock", "lock"]), th("a3", ["lock"])], ["a1"]),
 ] + [dict(u, name="rw_" + u["name"]) for u in PROPS["C12"]["units"] if u["name"] in ("panic3", "poisoned3")] \
   + [dict(ruunit("panic"), name="stack_reuse_after_panic"),
+     # the panicking coroutine owns a guard whose destructor yields; a cancel may be pending or arrive during that yield (C13-3; F25)
+     dict(ruunit("dropyield_cancel"), name="stack_reuse_after_panic_dropyield", params=dict(kind="dropyield_cancel", pool_capacity=1, workers=8, cancel_first=True), tv=False,
+          # (the hold removes the model's other order: exploration only, no replay of model behaviours)
+          quick=dict(explore=dict(n=150), dfs=dict(max=150, pb=2)), thorough=dict(explore=dict(n=1500), dfs=dict(max=1500, pb=3))),
+     # ... and the cancel racing that yield (F25: the process aborts; the worker threads' panic counts are off afterwards,
+     # so everything this unit's process shows belongs to that finding)
+     dict(ruunit("dropyield_cancel", n=60), name="panic_dropyield_cancel_race", tv=False),
+     dict(ruunit("sleep_dropyield_cancel"), name="stack_reuse_after_cancel_dropyield"),
      clsunit("locals_after_panic", [ca("a1"), ca("a2", end="panic"), ca("a3", end="panic"), ca("a4")], [], pool_capacity=1)] \
   + [dict(u, name="scope_" + u["name"]) for u in PROPS["C14"]["units"] if u["name"] in ("owner_panic", "child_panic", "child_panic_lifo")] \
   + [dict(u, name="cq_" + u["name"]) for u in C16_UNITS if u["name"] in ("panic_top", "panic_bottom")]
